@@ -78,6 +78,19 @@ TermsEqualObs(K, d0, taps, k, d, pad) ==
     /\ pad = (k - 1) * d
     /\ \A i \in 1..k : (k - i) * d = (K - 1 - taps[i]) * d0
 
+(* padding='same' (the other layout plinio's README recommends for a searched Conv1d): torch pads          *)
+(* total = d*(k-1) samples, total \div 2 on the left.  Tap j (0-based) of the masked kernel reads            *)
+(* x[t + j*d0 - SameLeft(K, d0)]; tap i (1-based) of the exported one reads x[t + (i-1)*d - SameLeft(k, d)]. *)
+SameLeft(k, d) == (d * (k - 1)) \div 2
+TermsEqualSameObs(K, d0, taps, k, d) ==
+    /\ Len(taps) = k
+    /\ \A i \in 1..k : (i - 1) * d - SameLeft(k, d) = taps[i] * d0 - SameLeft(K, d0)
+TermsEqualSame(anchor, K, b, g, d0) ==
+    LET T == Kept(anchor, K, b, g)
+        k == Cardinality(T)
+        d == DilOpt(anchor, K, g, d0)
+    IN  k >= 1 /\ TermsEqualSameObs(K, d0, SortedSeq(T), k, d)
+
 TermsEqual(anchor, K, b, g, d0) ==
     LET T == Kept(anchor, K, b, g)
         k == Cardinality(T)
